@@ -207,6 +207,7 @@ class Engine:
         self.merge_funcs = set(self.opts.get('merge_funcs', ()))
         self.merge_depth = 0
         self.merges = 0
+        self.feas_unknown = 0
         self.choice_prefix = list(self.opts.get('choice_prefix', ()))
         self.probe_depth = self.opts.get('probe_depth')
         self.probe_out = []
@@ -371,8 +372,10 @@ class Engine:
             self.bcache.setdefault(cid, []).append((tuple(st.pc), True))
             self.bkeep.append(cond)
             return [(st, True)]
+        # an undecided feasibility check keeps both successors: exploring an infeasible path is sound (a violation found on it
+        # cannot replay); it is counted, not reported as inconclusive
         if r1 == "unknown" or r2 == "unknown":
-            self.unknowns.append(Obligation("branch", "feasibility unknown", None, st, None, "unknown"))
+            self.feas_unknown += 1
         s2 = st.fork()
         st.pc.append(cond)
         s2.pc.append(z3.Not(cond))
